@@ -1,4 +1,5 @@
 """input predicates for known findings beyond the exhaustive bound (see DESIGN 2.6)"""
+import json
 
 
 def word_longer_than(failure, n):
@@ -154,3 +155,26 @@ def c16_stale_required_repaired(failure):
 def history_shares_child_object(failure):
     """the history hands one child OBJECT to two parents or twice to the same parent (ops share_out / add_again)"""
     return any(op and op[0] in ('share_out', 'add_again') for op in failure['input'].get('ops', []))
+
+
+_C11_STALE = None
+
+
+def c11_stale_known(failure, max_adds=3):
+    """KF-R-stale-required: inside the bound 'k adds (k<=max_adds) then one removal' (judged on the effective history
+    the check attaches as failure['norm']) only the exactly enumerated (type, history) pairs of
+    kf/C11-stale-required.jsonl are the known finding; beyond the bound every stale-required verdict is"""
+    global _C11_STALE
+    norm = failure.get('norm')
+    if not norm:
+        return True
+    ops = norm['ops']
+    inside = 2 <= len(ops) <= max_adds + 1 and all(o[0] == 'add' for o in ops[:-1]) and ops[-1][0] == 'remove'
+    if not inside:
+        return True
+    if _C11_STALE is None:
+        import os
+        path = os.path.join(os.path.dirname(os.path.dirname(os.path.abspath(__file__))), 'kf', 'C11-stale-required.jsonl')
+        with open(path, encoding='utf-8') as f:
+            _C11_STALE = set(line.strip() for line in f if line.strip())
+    return json.dumps({'type': norm['type'], 'ops': ops}, sort_keys=True) in _C11_STALE
